@@ -208,7 +208,19 @@ class Node:
             x = x.lattice       # a slot may also hold a (loaded) lattice itself: second-generation pickles
 
         def go():
-            data = pickle.dumps(x, cmd.get('protocol', 4))
+            proto = cmd.get('protocol', 4)
+            if proto == 6:      # protocol 5 with out-of-band buffers kept in side files
+                buffers = []
+                data = pickle.dumps(x, 5, buffer_callback=buffers.append)
+                for k, b in enumerate(buffers):
+                    with open(f"{cmd['path']}.buf{k}", 'wb') as f:
+                        f.write(b.raw())
+                with open(cmd['path'] + '.nbuf', 'w') as f:
+                    f.write(str(len(buffers)))
+            else:
+                data = pickle.dumps(x, proto)
+                if os.path.exists(cmd['path'] + '.nbuf'):
+                    os.unlink(cmd['path'] + '.nbuf')
             with open(cmd['path'], 'wb') as f:
                 f.write(data)
             return len(data)
@@ -222,8 +234,16 @@ class Node:
 
     def do_pickle_load(self, cmd):
         def go():
+            buffers = None
+            if os.path.exists(cmd['path'] + '.nbuf'):
+                with open(cmd['path'] + '.nbuf') as f:
+                    n = int(f.read())
+                buffers = []
+                for k in range(n):
+                    with open(f"{cmd['path']}.buf{k}", 'rb') as f:
+                        buffers.append(f.read())
             with open(cmd['path'], 'rb') as f:
-                return pickle.load(f)
+                return pickle.load(f, buffers=buffers)
         out = call(go)
         if out.ok and cmd.get('expect') == 'lattice' and not isinstance(out.value, self.C.lattices.Lattice):
             return {'ok': False, 'err': 'TypeError', 'msg': f'unpickled a {type(out.value).__name__}'}
